@@ -15,8 +15,16 @@ cmd = meta["demo_cmd"]
 cmd = re.sub(r"^cd \S+ && ", "", cmd)
 cmd = cmd.split("   (")[0]                      # trailing explanation in parentheses
 main = cmd.split(" ; rm ")[0]
-main = main.replace(f"seeded_out/{M}/", f"{D}/")
+inplace = f"./seeded_out/{M}" in main
+if not inplace:
+    main = main.replace(f"seeded_out/{M}/", f"{D}/")
 created = re.findall(r"cp \S+ (\S+)", main)
+import shutil
+def place():
+    if inplace:
+        os.makedirs(f"{REPO}/seeded_out", exist_ok=True)
+        shutil.rmtree(f"{REPO}/seeded_out/{M}", ignore_errors=True)
+        shutil.copytree(D, f"{REPO}/seeded_out/{M}")
 def clean():
     sh("git checkout -- . && git clean -fdq")
 def verdict(out):
@@ -24,11 +32,12 @@ def verdict(out):
     if re.search(r"^(ok|PASS)", out, flags=re.M): return "PASS"
     return "UNKNOWN"
 sh(f"git checkout -q --detach $(git -C /repo rev-parse HEAD)"); clean()
-rc0, out0 = sh(main); v0 = verdict(out0); clean()
+place(); rc0, out0 = sh(main); v0 = verdict(out0); clean()
 rca, _ = sh(f"git apply {D}/patch.diff")
 rcb, outb = sh("go build ./...")
+shutil.rmtree(f"{REPO}/seeded_out", ignore_errors=True)
 rct, outt = sh("go test -vet=off -count=1 ./... 2>&1 | grep -v '^ok\\|no test files\\|ld: \\|^# ' ")
-rc1, out1 = sh(main); v1 = verdict(out1); clean()
+place(); rc1, out1 = sh(main); v1 = verdict(out1); clean()
 tests_fail = [l for l in outt.splitlines() if l.startswith(("FAIL", "--- FAIL", "panic"))]
 only_teststate = all(("blockchain" in l or "TestState" in l or l.strip() == "FAIL") for l in tests_fail)
 meta["confirmation"] = {"demo_on_unchanged_tree": v0, "demo_with_change": v1, "patch_applies": rca == 0, "builds": rcb == 0,
